@@ -1,5 +1,6 @@
 import DdsModel.Graph
 import DdsModel.Eval
+import DdsProofs.Structure
 /-!
 # C18 — graph export is faithful and does not perturb the evaluation
 
@@ -9,8 +10,18 @@ import DdsModel.Eval
 * `dashed_sources_are_loads`: the dashed edges into a kept call are exactly the paths it loads.
 The Lean `graphOf` is the *specification* of the graph (what the property states); `_plotting._structure`
 is compared with it on every generated pipeline (nodes, solid and dashed edges exactly; dotted edges only
-constrained; acyclicity checked on the exported graph). PARTIAL: acyclicity and the exact edge
-characterisation of `_structure` itself are decided by that comparison, not proved.
+constrained; acyclicity checked on the exported graph).
+
+`DdsModel/Structure.lean` is a line-by-line model of `_structure` itself (`structureM`: its dictionaries threaded through the
+traversal), compared **exactly** — every node, every solid, dashed and dotted edge — with the real graph on every generated
+pipeline. About it:
+* `reaches_decides_reachability`: the search `reaches` added by the `fix:` commit for cycles of dotted edges decides
+  reachability, for every edge list (its `E.length + 1` rounds always suffice);
+* `guard_is_sufficient`: adding an edge whose target does not reach its source keeps an acyclic edge list acyclic;
+* `implicit_edges_keep_acyclic`: the whole loop that records the implicit (call-order) edges of one function keeps the
+  recorded edges acyclic, from any state.
+PARTIAL: that the solid and dashed edges recorded by `structureM` are those of `graphOf`, and that they are acyclic by
+themselves, is decided by the comparison, not proved.
 -/
 namespace Dds.C18
 open Dds List
@@ -124,5 +135,23 @@ theorem dashed_sources_are_loads (g : Graph) (n : String) (s : Sg) (v : String) 
   · rintro (h | ⟨a, ha, h1⟩)
     · exact Or.inl h
     · exact Or.inr ⟨a, ha, h1, trivial⟩
+
+/-- `reaches` (the guard of the `fix:` commit) decides reachability along the recorded edges -/
+theorem reaches_decides_reachability (E : List (Sg × Sg)) (a b : Sg) : reaches E a b = true ↔ Reach E a b :=
+  reaches_iff E a b
+
+/-- an edge whose target does not reach its source can be added without creating a cycle -/
+theorem guard_is_sufficient (E : List (Sg × Sg)) (a b : Sg) (hE : Acyclic E) (hne : a ≠ b) (hg : reaches E b a = false) :
+    Acyclic ((a, b) :: E) :=
+  guarded_insert_acyclic E a b hE hne hg
+
+/-- the loop over `start_nodes` × `l1` of `_structure` never closes a cycle -/
+theorem implicit_edges_keep_acyclic (subSet : List Sg) (startNodes l1 : List GNode) (st : SSt) (h : Acyclic st.edgeKeys) :
+    Acyclic (implicitEdges subSet startNodes l1 st).edgeKeys :=
+  implicitEdges_acyclic subSet startNodes l1 st h
+
+/-- non-vacuity: the three call-order edges b → c, a → b, c → a of the repaired defect: the third one is refused -/
+example : reaches [(Sg.X [("b", .H [])], Sg.X [("c", .H [])]), (Sg.X [("a", .H [])], Sg.X [("b", .H [])])]
+    (Sg.X [("a", .H [])]) (Sg.X [("c", .H [])]) = true := by decide +kernel
 
 end Dds.C18
